@@ -71,6 +71,7 @@ def lazy_interrupt_ambiguity(text):
 _MARKER_ONLY = re.compile(r"^[ \t>]*(?:[-+*]|\d{1,9}[.)])[ \t]*$")
 _EXCL_LINK_AT_END = re.compile(r"\]\([ \t]*$", re.M)
 _EXCL_DECL = re.compile(r"<![A-Za-z]")
+_EXCL_INDENTED_CONT = re.compile(r"\n[ >]*[ \t]+\S")
 
 
 def excluded_construct(text):
@@ -79,9 +80,14 @@ def excluded_construct(text):
       (also on the reference-link fallback the specification prescribes, cf. the spec example
       '[foo](not a link)'), a quirk of the reference, not of the specification;
     * '<!' + letter: an HTML declaration in 0.31 (any ASCII letter) but not in 0.29 (upper case
-      name followed by whitespace) - the two specification versions disagree."""
+      name followed by whitespace) - the two specification versions disagree;
+    * a backtick anywhere together with an indented continuation line: the specification strips the
+      leading whitespace of paragraph continuation lines before inline parsing (cmark does, and so
+      does pymarkdown); markdown-it keeps it inside a code span that runs over the line break."""
     if _EXCL_LINK_AT_END.search(text):
         return "link-open-paren-at-end-of-inline"
     if _EXCL_DECL.search(text):
         return "html-declaration-0.29-vs-0.31"
+    if "`" in text and _EXCL_INDENTED_CONT.search(text):
+        return "code-span-over-indented-continuation-line"
     return None
